@@ -325,6 +325,14 @@ type ipv6HeaderTLVOption struct {
 }
 
 func (h *ipv6HeaderTLVOption) serializeTo(data []byte, fixLengths bool, dryrun bool) int {
+	if h.OptionType == 0 {
+		// Pad1 is a single zero byte without length and data; the decoder
+		// reports it like this as well
+		if !dryrun {
+			data[0] = 0
+		}
+		return 1
+	}
 	if fixLengths {
 		h.OptionLength = uint8(len(h.OptionData))
 	}
